@@ -9,7 +9,8 @@ from hypothesis import strategies as st
 from quantity import Quantity, UndefinedResultError, UnitConversionError
 from quantity.money import Currency, Money, get_currency_info
 
-from .. import gen, iso
+import quantity.predefined as _pre  # noqa: F401  (foreign unit symbols for the unknown-code part)
+from .. import gen, iso, lab  # noqa: F401
 from ..model import F, exact, fs, mknum, round_to
 from ..runner import Part
 
@@ -73,8 +74,11 @@ def gen_same(draw):
 
 @st.composite
 def gen_unknown(draw):
-    sel = draw(st.integers(0, 3))
+    sel = draw(st.integers(0, 4))
     letters = "ABCDEFGHIJKLMNOPQRSTUVWXYZ"
+    if sel == 4:
+        # symbols of existing units of OTHER quantity types are not currency codes either
+        return {"k": "unknown", "code": draw(st.sampled_from(["kg", "m", "km/h", "B", "°C", "kWh", "lc", "klc"]))}
     if sel == 0:
         code = draw(st.sampled_from(CODES)).lower()
     elif sel == 1:
